@@ -320,8 +320,93 @@ class Gen:
             vals.append("end")
         for v in vals:
             items.insert(r.randint(0, len(items)), self.value_assignment(v))
-        return {"name": mname, "oid": self.oid(0.35), "tagdefault": r.choice([None, "AUTOMATIC", "AUTOMATIC", "EXPLICIT", "IMPLICIT"]),
-                "imports": imports, "empty_imports": r.random() < 0.1, "items": items}
+        res = {"name": mname, "oid": self.oid(0.35), "tagdefault": r.choice([None, "AUTOMATIC", "AUTOMATIC", "EXPLICIT", "IMPLICIT"]),
+               "imports": imports, "empty_imports": r.random() < 0.1, "items": items}
+        if r.random() < 0.12:
+            self.inject_clash(items)
+        if r.random() < 0.05:
+            self.inject_own_type_identifier(items)
+        return res
+
+    def inject_own_type_identifier(self, items):
+        """DEFAULT <identifier> where the identifier belongs to the component's own type in a way the crate does not
+        look at (classes default_named_number_not_consulted, default_item_through_reference_chain_not_followed), without
+        and with a value assignment of the same name"""
+        r = self.rng
+        if any(it[1].lower() == "end" for it in items):
+            return
+        vals = {it[1] for it in items if it[0] == "val"}
+        with_value = r.random() < 0.5
+        if r.random() < 0.5:
+            nms = [x for x in r.sample(ITEM_NAMES, 3) if x not in vals]
+            if not nms:
+                return
+            nm = nms[0]
+            k = r.choice([1, 5, 7, 200])
+            named = [[nm, k]] + [[x, 300 + i] for i, x in enumerate(nms[1:])]
+            r.shuffle(named)
+            comps = [["nn", self.tag(0.2), ["INTEGER", named, r.choice([None, [0, 1000, False]])], ["DEFAULT", ["id", nm]]]]
+            if r.random() < 0.4:
+                comps.insert(r.randint(0, 1), ["flag", None, ["BOOLEAN"], "OPTIONAL"])
+            items.insert(r.randint(0, len(items)), ["type", "Nn-Holder", None, [r.choice(["SEQUENCE", "SET"]), comps, None]])
+            v = k + 11
+        else:
+            enums = [it for it in items if it[0] == "type" and it[3][0] == "ENUM" and it[1].lower() not in KEYWORD_LIKE]
+            if enums and r.random() < 0.5:
+                e = r.choice(enums)
+            else:
+                e = ["type", "Chain-Enum", None, self.enum()]
+                items.insert(r.randint(0, len(items)), e)
+                self.defs[e[1]] = e[3]
+            cands = [i[0] for i in e[3][1] if i[0] not in vals]
+            if not cands:
+                return
+            nm = r.choice(cands)
+            last = e[1]
+            for h in range(r.choice([1, 1, 2, 3])):
+                name = "Chain-L%d" % (h + 1)
+                items.insert(r.randint(0, len(items)), ["type", name, self.tag(0.2), ["REF", last, None]])
+                last = name
+            comps = [["x", self.tag(0.2), ["REF", last, None], ["DEFAULT", ["id", nm]]]]
+            items.insert(r.randint(0, len(items)), ["type", "Chain-Holder", None, [r.choice(["SEQUENCE", "SET"]), comps, None]])
+            v = r.randint(0, 100)
+        if with_value:
+            items.insert(r.randint(0, len(items)), ["val", nm, ["INTEGER", [], None], ["int", v]])
+
+    def inject_clash(self, items):
+        """one identifier bound in two namespaces that a DEFAULT / a constraint could mean: an item of an ENUMERATED type
+        and a value assignment of the same name (declared before or after the uses).  X.680: for a component whose type
+        is (a reference to) that ENUMERATED the identifier is the item; everywhere else it is the value reference."""
+        r = self.rng
+        if any(it[1].lower() == "end" for it in items):
+            return      # class assignment_named_end_truncates_module would drop some of the injected assignments
+        enums = [it for it in items if it[0] == "type" and it[3][0] == "ENUM" and it[1].lower() not in KEYWORD_LIKE]
+        if enums and r.random() < 0.6:
+            e = r.choice(enums)
+        else:
+            e = ["type", "Clash-Enum", self.tag(0.2), self.enum()]
+            items.insert(r.randint(0, len(items)), e)
+            self.defs[e[1]] = e[3]
+        nm = r.choice(e[3][1])[0]
+        if any(it[0] == "val" and it[1] == nm for it in items):
+            return
+        v = r.randint(0, 100)
+        comps = [["lvl", self.tag(0.2), ["REF", e[1], None], ["DEFAULT", ["id", nm]]]]
+        k = r.random()
+        if k < 0.7:
+            comps.append(["n", self.tag(0.2), ["INTEGER", [], [0, 100, False]], ["DEFAULT", ["id", nm]]])
+        if k > 0.4:
+            comps.append(["o", None, ["OCTET", {"k": "fix", "n": ["ref", nm], "ext": False, "paren": True}], r.choice([None, "OPTIONAL"])])
+        if r.random() < 0.4:
+            comps.append(["i", None, ["INTEGER", [], [0, ["ref", nm], False]], None])
+        if r.random() < 0.4:
+            # an ENUMERATED type that does NOT have the item: the value reference is meant
+            other = [[x, None] for x in ITEM_NAMES if x != nm][:r.randint(1, 3)]
+            items.insert(r.randint(0, len(items)), ["type", "Clash-Other", None, ["ENUM", other, None]])
+            comps.append(["lv2", None, ["REF", "Clash-Other", None], ["DEFAULT", ["id", nm]]])
+        r.shuffle(comps)
+        items.insert(r.randint(0, len(items)), ["type", "Clash-Holder", None, [r.choice(["SEQUENCE", "SET"]), comps, None]])
+        items.insert(r.randint(0, len(items)), ["val", nm, ["INTEGER", [], None], ["int", v]])
 
 
 # ====================================================================== printer
@@ -548,7 +633,9 @@ Q_STR_LIT = "string_literal_rebuilt_from_tokens"
 Q_MODULE_SUFFIX = "module_name_suffix_stripped"
 Q_KEYWORD_REF = "type_reference_read_as_keyword"
 Q_END_NAME = "assignment_named_end_truncates_module"
-ALL_QUIRKS = [Q_KEYWORD_REF, Q_END_NAME, Q_INT_0_MAX, Q_INT_MIN_I64MAX, Q_SIZE_0_MAX, Q_MARKER_FIRST, Q_SECOND_MARKER, Q_WITH_COMPONENTS, Q_BIN_LIT,
+Q_NAMED_DEFAULT = "default_named_number_not_consulted"
+Q_CHAIN_DEFAULT = "default_item_through_reference_chain_not_followed"
+ALL_QUIRKS = [Q_NAMED_DEFAULT, Q_CHAIN_DEFAULT, Q_KEYWORD_REF, Q_END_NAME, Q_INT_0_MAX, Q_INT_MIN_I64MAX, Q_SIZE_0_MAX, Q_MARKER_FIRST, Q_SECOND_MARKER, Q_WITH_COMPONENTS, Q_BIN_LIT,
               Q_HEX_ODD, Q_STR_LIT, Q_MODULE_SUFFIX]
 
 
@@ -563,6 +650,21 @@ def strip_module_suffix(name):
     return name
 
 
+def chain_enum_of(typedefs, name):
+    seen = set()
+    hops = 0
+    while name in typedefs and name not in seen:
+        seen.add(name)
+        t = typedefs[name]
+        if t[0] == "ENUM":
+            return name if hops else None
+        if t[0] != "REF" or t[2] is not None:
+            return None
+        name = t[1]
+        hops += 1
+    return None
+
+
 class Canon:
     def __init__(self, A, quirks=(), env=None):
         self.A = A
@@ -570,6 +672,10 @@ class Canon:
         self.used = set()       # quirks that changed something
         self.has = set()        # quirks whose syntactic trigger occurs in A
         self.enums = {it[1]: it[3] for it in A["items"] if it[0] == "type" and it[3][0] == "ENUM"}
+        self.typedefs = {}
+        for it in A["items"]:
+            if it[0] == "type" and it[1] not in self.typedefs:
+                self.typedefs[it[1]] = it[3]
         self.values = {}
         for it in A["items"]:
             if it[0] == "val" and it[1] not in self.values:
@@ -618,6 +724,11 @@ class Canon:
             return lit[1]
         return v
 
+    def chain_enum(self, name):
+        """the local ENUMERATED that the type reference `name` leads to through ONE OR MORE plain type references
+        (name itself is not an ENUMERATED definition), or None"""
+        return chain_enum_of(self.typedefs, name)
+
     def lit(self, l, comp_type=None):
         k = l[0]
         if k == "bool":
@@ -650,6 +761,20 @@ class Canon:
             if comp_type is not None and comp_type[0] == "REF" and comp_type[1] in self.enums and \
                     any(i[0] == l[1] for i in self.enums[comp_type[1]][1]):
                 return [4] + c_str(comp_type[1]) + c_str(l[1])
+            # X.680: an identifier of the component's OWN type comes first: a named number of its INTEGER type ...
+            if comp_type is not None and comp_type[0] == "INTEGER" and any(nn[0] == l[1] for nn in comp_type[1]):
+                same = self.values.get(l[1], self.env.get(l[1]))
+                if same is not None and self.hit(Q_NAMED_DEFAULT):
+                    return self.lit(same)           # the crate: the same-named value reference
+                return [2, [nn[1] for nn in comp_type[1] if nn[0] == l[1]][0]]
+            # ... an item of the ENUMERATED its type refers to through a chain of type references
+            if comp_type is not None and comp_type[0] == "REF":
+                e = self.chain_enum(comp_type[1])
+                if e is not None and any(i[0] == l[1] for i in self.typedefs[e][1]):
+                    same = self.values.get(l[1], self.env.get(l[1]))
+                    if same is not None and self.hit(Q_CHAIN_DEFAULT):
+                        return self.lit(same)
+                    return [4] + c_str(e) + c_str(l[1])
             v = self.values.get(l[1], self.env.get(l[1]))
             if v is None:
                 self.unresolved.append(("dangling", l[1]))
@@ -854,6 +979,11 @@ def rejection_triggers(A):
             return o[1] == 2 and o[2] == kind and o[3:] == c_str(name)
         return f
 
+    typedefs = {}
+    for it in A["items"]:
+        if it[0] == "type" and it[1] not in typedefs:
+            typedefs[it[1]] = it[3]
+    vals = {it[1] for it in A["items"] if it[0] == "val"}
     for s in all_sizes(A):
         if s["k"] == "range" and s["ext"] and s["lo"] in (0, "MIN") and s["hi"] in ("MAX", I64_MAX):
             out.append(("size_0_max_extensible_rejected", "SIZE(0..MAX, ...) is a parse error: after folding 0..MAX to 'no constraint' the parser insists on ')'",
@@ -865,6 +995,12 @@ def rejection_triggers(A):
         if l[0] == "id" and t[0] == "ENUM":
             out.append(("default_item_of_inline_enumerated_unresolved", "DEFAULT <item> on an inline ENUMERATED is looked up as a value reference and fails to resolve",
                         resolve_err(1, l[1])))
+        if l[0] == "id" and t[0] == "INTEGER" and any(nn[0] == l[1] for nn in t[1]) and l[1] not in vals:
+            out.append((Q_NAMED_DEFAULT, QUIRK_TEXT[Q_NAMED_DEFAULT], resolve_err(1, l[1])))
+        if l[0] == "id" and t[0] == "REF":
+            e = chain_enum_of(typedefs, t[1])
+            if e is not None and any(i[0] == l[1] for i in typedefs[e][1]) and l[1] not in vals:
+                out.append((Q_CHAIN_DEFAULT, QUIRK_TEXT[Q_CHAIN_DEFAULT], resolve_err(1, l[1])))
         if l[0] == "id" and t[0] == "REF" and KEYWORD_LIKE.get(t[1].lower()) is not None:
             out.append((Q_KEYWORD_REF, QUIRK_TEXT[Q_KEYWORD_REF] + " (here: DEFAULT <item> of the referenced ENUMERATED no longer resolves)",
                         resolve_err(1, l[1])))
@@ -892,6 +1028,8 @@ QUIRK_TEXT = {
     Q_STR_LIT: "a cstring literal is rebuilt from tokens and columns: leading/trailing blanks and a leading separator character are lost",
     Q_KEYWORD_REF: "keywords are matched case-insensitively: a reference to a type named Integer / Boolean / Null is replaced by the unconstrained builtin (constraints of the referenced type silently dropped)",
     Q_END_NAME: "an assignment whose name is 'end' in any case (legal valuereference / typereference End) ends the module: everything after it is silently dropped",
+    Q_NAMED_DEFAULT: "DEFAULT <identifier> on an INTEGER component with a named number of that name: the named numbers of the component's own type are never consulted -- the identifier is looked up as a value reference (FailedToResolveReference when no value of that name exists, silently the same-named value's literal when one exists)",
+    Q_CHAIN_DEFAULT: "DEFAULT <item> on a component whose type refers to an ENUMERATED through a chain of type references (L2 ::= Level, x L2 DEFAULT item): only a definition that is itself an ENUMERATED is inspected -- the item is looked up as a value reference (FailedToResolveReference without a same-named value, silently that value's literal with one)",
     Q_MODULE_SUFFIX: "a module name (own or in FROM) ending in 'Module' / '_Module' loses that suffix",
 }
 
@@ -977,6 +1115,7 @@ THEOREMS = ["C07_parse_print_tag_partial", "C07_parse_print_opt_tag_partial", "C
             "C07_refuted_with_components_dropped", "C07_refuted_type_reference_read_as_keyword",
             "C07_refuted_assignment_named_end_truncates_module", "C07_refuted_size_0_max_extensible_rejected",
             "C07_refuted_bit_literal_right_aligned_length_lost", "C07_refuted_module_name_suffix_stripped",
+            "C07_refuted_default_named_number_not_consulted", "C07_refuted_default_item_through_reference_chain_not_followed",
             "C07_parse_print_enumerated", "C07_parse_print_literal_partial", "C07_parse_print_value_reference",
             "C07_parse_print_oid", "C07_parse_print_opt_oid", "C07_parse_print_imports", "C07_parse_print_type",
             "C07_parse_print", "C07_parse_print_module_items",
@@ -1002,13 +1141,22 @@ class C07(Spec):
                   'grammar C07_parse_print_type) and for whole modules (C07_parse_print: parse (print_module m) = denote_module m '
                   'for every wf_module, outside the forms the parser rewrites, which are excluded as named classes with one '
                   'vm_compute witness each); literals are _partial (booleans, integers, column-placed strings, even hex, '
-                  "multiple-of-8 bit strings). Printing is over token lists: lexing of the printed text is C13's theorem.")
+                  "multiple-of-8 bit strings). Printing is over token lists: lexing of the printed text is C13's theorem. "
+                  "Name clashes (one identifier an ENUMERATED item and a value reference) are generated: canon(A) says the item of "
+                  "the component's own ENUMERATED wins and everything else means the value; the two deviations found there are "
+                  "the known classes default_named_number_not_consulted (a named number of the component's own INTEGER type is "
+                  "never consulted by DEFAULT <identifier>) and default_item_through_reference_chain_not_followed (the "
+                  "ENUMERATED is only found when the component's type refers to it directly).")
     rule = ("grammar-based generator of abstract modules (definitions in order: SEQUENCE/SET with tags, OPTIONAL, DEFAULT "
             "literals of each kind, extension markers at every position incl. before the first component and a second "
             "marker; CHOICE/ENUMERATED with numbers and markers; SEQUENCE OF/SET OF; INTEGER with ranges A..B, MIN/MAX, "
             "extensible, named numbers; BOOLEAN; NULL; OCTET STRING; BIT STRING with named bits; the five string kinds with "
             "SIZE(n), SIZE(a..b), MIN/MAX, extensible, bare/parenthesised; type references, WITH COMPONENTS; value "
-            "assignments; IMPORTS with/without OID; module OIDs; nesting depth <= 5), printed with random layout (blanks, "
+            "assignments; IMPORTS with/without OID; module OIDs; nesting depth <= 5; in 12% of the modules a name clash: a value "
+            "assignment named like an item of an ENUMERATED, declared before or after, used as DEFAULT of a component of that "
+            "ENUMERATED, of an INTEGER, of another ENUMERATED, and as SIZE / range bound; in 5% DEFAULT <identifier> where the "
+            "identifier is a named number of the component's INTEGER type or an item of an ENUMERATED reached through 1..3 "
+            "type references, each without and with a same-named value assignment), printed with random layout (blanks, "
             "line ends, line and block comments, dense). non-trivial = the front end returned a model with at least one "
             "definition; distinct = distinct case line")
     assumptions_text = ["the integer dump of Model<Asn<Resolved>> in harness/a1h/src/parse.rs (public fields and accessors only)",
